@@ -104,6 +104,38 @@ func suiteCalls(c *ctx) {
 		}
 		return base
 	}
+	// hand-written states first (shapes the seeded changes C08-c / C08-d needed): two foreign keys of one table whose
+	// referenced tables are not in ascending order, a renamed index in a created table, an index on several columns
+	type wstate struct {
+		oldS, newS []Stmt
+		diffed     bool
+	}
+	parents := []Stmt{tbl("user", col("id", "int(11)", oNotNull, oPk)), tbl("city", col("id", "int(11)", oNotNull, oPk))}
+	twoFk := append(append([]Stmt{}, parents...), tbl("orders", ints("id", "uid", "cid")...),
+		fk("orders", "fk_user_orders", "uid", "user", "id"), fk("orders", "fk_city_orders", "cid", "city", "id"))
+	renamed := []Stmt{tbl("t", ints("a", "b", "c")...), idx("t", "i", false, "a"), {Kind: "renameIndex", T: "t", A: "i", B: "j"}, idx("t", "k", true, "b", "c")}
+	wstates := []wstate{
+		{nil, twoFk, false}, {parents, twoFk, true}, {twoFk, parents, true},
+		{nil, renamed, false}, {renamed, []Stmt{tbl("t", ints("a", "b", "c")...)}, true},
+	}
+	for wi, w := range wstates {
+		cfg := runCfg{dialect: "mysql", lower: wi%2 == 1}
+		base := baseline(cfg, w.oldS, w.newS, w.diffed)
+		k := 0
+		for _, m1 := range outputMethods {
+			for _, m2 := range outputMethods {
+				runSeq(fmt.Sprintf("w%d-%d", wi, k), cfg, w.oldS, w.newS, w.diffed, nil, []string{m1, m2}, base)
+				k++
+			}
+		}
+		// an output call on either side before Diff
+		if w.diffed {
+			for _, m1 := range outputMethods {
+				runSeq(fmt.Sprintf("w%d-pre-%s", wi, m1), cfg, w.oldS, w.newS, true, []string{m1, m1}, []string{"StringUp", "StringDown", "HashValue"}, base)
+			}
+		}
+		c.counts["witness_states"]++
+	}
 	// exhaustive short sequences on a few states
 	for s := 0; s < nStates; s++ {
 		cfg, oldS, newS, diffed := mk(s)
